@@ -1,10 +1,10 @@
 (* Extraction of the executable Stall model (selector + wake-up protocol acceptor).
    Directives: ExtrOcamlBasic only; N / Z / positive / nat stay inductive. *)
 From Coq Require Import NArith ZArith List.
-From Blue Require Import Lsm.Model Stall.Select.
+From Blue Require Import Lsm.Model Stall.Select Stall.Known.
 Require Import ExtrOcamlBasic.
 Extraction Language OCaml.
 Extraction "../ocaml/stall/gen_stall.ml" next_compaction should_stall_ingest should_mandatory sel_wfb
   valid_compactionb vc_shape vc_slice vc_rest vc_range vc_closed vc_ids apply_compaction wf_versionb
-  level_curve_tbl level_factor_tbl
+  known_stall l1_overlap options_safe ingest level_curve_tbl level_factor_tbl
   N.of_nat N.to_nat N.add N.mul N.div_eucl.
